@@ -169,7 +169,7 @@ func run(c peng.Case) vt.Verdict {
 func TestProp(t *testing.T) {
 	vt.Main(t, vt.Spec[peng.Case]{
 		ID:           "C18",
-		Rule:         "rapid-generated sequences of 10-120 calls of all 20 kinds from 1-4 threads, each ending in a generated way (quorum before all replies, exhaustion, cancellation/deadline before or after the send, node error, correctable done, stream abandoned, zero targets, future never read); after the sequence every handler has returned (all gates open), every call has ended and a fence RPC to every node has completed; then, polling up to the hang bound, the number of routing entries of every node (read-only accessor injected at build time) must be 0 and no goroutine may sit in a per-call frame (async handler, correctable handler, send watcher); non-trivial (measured) = at least 3 distinct ways of ending in the sequence",
+		Rule:         "rapid-generated sequences of 10-120 calls of all 20 kinds from 1-4 threads, each ending in a generated way (quorum before all replies, exhaustion, cancellation/deadline before or after the send, node error, correctable done, stream abandoned, zero targets, future never read), in half of the cases with seeded jitter at the statement-level yield points of the instrumented runtime; after the sequence every handler has returned (all gates open), every call has ended and a fence RPC to every node has completed; then, polling up to the hang bound, the number of routing entries of every node (read-only accessor injected at build time) must be 0 and no goroutine may sit in a per-call frame (async handler, correctable handler, send watcher); non-trivial (measured) = at least 3 distinct ways of ending in the sequence",
 		Gen:          gen,
 		Run:          run,
 		TrackCurrent: true,
